@@ -32,6 +32,31 @@ inductive Body where
   | tick                                 -- interval_task (RepeatTask) of the `interval` source
   | bufTick (stage : Nat)               -- emit_buffer (RepeatTask) of buffer_with_time
   | tickN (stage : Nat)                 -- interval_task of an `interval` in notifier position of `stage`
+  | futureSrc                            -- FutureTask of the `from_future` / `from_future_result` source
+  | streamSrc                            -- (Try)StreamObserverFuture of `from_stream` / `from_stream_result`
+  deriving Repr, DecidableEq
+
+/-- The two task bodies that may return `Poll::Pending` from their own `poll`
+    (every other body is a `OnceTask` / `RepeatTask` closure). -/
+def Body.isAsync : Body → Bool
+  | .futureSrc => true
+  | .streamSrc => true
+  | _ => false
+
+/-- One step of a scripted future / stream (harness/src/ascript.rs): what one
+    `poll` / `poll_next` answers. -/
+inductive AStep where
+  | ready (v : Val)     -- `Poll::Ready(v)` / `Ready(Some(v))`  (`Ok(v)` for the `_result` forms)
+  | err (e : Err)       -- `Ready(Err(e))` / `Ready(Some(Err(e)))` for the `_result` forms
+  | pending             -- `Poll::Pending` once, after `cx.waker().wake_by_ref()`
+  | hang                -- `Poll::Pending` for ever, nobody is woken
+  deriving Repr, DecidableEq
+
+/-- How a poll of an async task body ends. -/
+inductive AOut where
+  | done                       -- `Poll::Ready`: the task is finished
+  | pending (woken : Bool)     -- `Poll::Pending`; `woken`: the waker was called during the poll
+  | exhausted                  -- (stream lap only) the script ran out: `poll_next` would answer `None`
   deriving Repr, DecidableEq
 
 /-- One spawned future together with its `HandleInfo`. -/
@@ -167,6 +192,14 @@ def pollPre (s : Sched) (k : TaskId) : Sched × Poll :=
 def finishOnce (s : Sched) (k : TaskId) : Sched :=
   match s.tasks[k]? with
   | some t => s.setTask k { t with done := true, hasValue := true }
+  | none => s
+
+/-- After a poll of an async body (FutureTask, stream driver) that returned
+    `Poll::Pending`: the task stays; it is ready again iff its waker was called
+    during the poll (`pollPre` had cleared the flag). -/
+def stayPending (s : Sched) (k : TaskId) (woken : Bool) : Sched :=
+  match s.tasks[k]? with
+  | some t => s.setTask k { t with woken := woken }
   | none => s
 
 /-- After a RepeatTask tick that returned `true`: next sequence number, fresh
